@@ -46,6 +46,12 @@ def main():
         rc, out = run(['git', 'apply', '--whitespace=nowarn', os.path.abspath(a.src + '/patch.diff')], cwd=patched)
         meta['patch_applies'] = rc == 0
         if rc != 0:
+            # the repository has moved on since the change was written (later fix: commits): retry with context fuzz
+            rc2, out2 = run(['patch', '-p1', '-s', '--fuzz=3', '--no-backup-if-mismatch', '-i', os.path.abspath(a.src + '/patch.diff')], cwd=patched)
+            if rc2 == 0:
+                rc, meta['patch_applies'], meta['patch_applied_with_fuzz'] = 0, True, True
+                run(['find', patched, '-name', '*.orig', '-delete'])
+        if rc != 0:
             print('PATCH DOES NOT APPLY', out[-500:]); meta['error'] = out[-500:]
             return finish(a, meta, keep=False)
         env = {'MPLBACKEND': 'Agg'}
